@@ -425,6 +425,14 @@ pub fn decode(t: &mut Tape, tier: Tier) -> BufCase {
     }
     // the enumeration is per byte: keep victim buffers small (no giant lines, at most 12 rules)
     v.rules.retain(|r| r.len() < 160);
+    if t.chance(1, 2) {
+        // patterns that begin or end with a multi-byte character (only hostnames are punycoded):
+        // flipped flag bits make the loader's consumers slice such text at fixed offsets
+        for _ in 0..(1 + t.pick(2)) {
+            let r = t.choose(&["/banner/ñ", "ñ/banner/", "||ads.example.com/é", "é*banner^ü", "/ad/日本$script", "@@ü/banner/ü", "||x.com^*ñ|", "|https://example.com/banner/é"]).to_string();
+            v.rules.insert(0, r);
+        }
+    }
     v.rules.truncate(12);
     let h = gen::full_case(t, &NetCfg { max_rules: 6, max_reqs: 1, ..Default::default() }, 3);
     let mut home = h.rules;
@@ -502,7 +510,7 @@ fn locate(case_json: &str) -> Option<Failure> {
 
 pub fn check(ctx: &mut Ctx) {
     ctx.level = "fault_enumeration";
-    ctx.rule = "for each generated pair (home engine with tags, victim engine of 0-10 rules of every network/cosmetic shape, debug/optimise flags): the victim's valid buffer b is corrupted by EVERY prefix, EVERY single-bit flip, byte substitutions at every offset (28 msgpack-marker values; thorough: all 255 on a quarter of the buffers), 600/4000 seeded multi-byte corruptions/insertions/deletions/splices/arbitrary strings, 4 inputs of 1 MiB and more that must be rejected (tried first, while the home engine still holds state the format does not carry: a scriptlet rule from a list with permissions), and every header variant (empty, 1-4 magic bytes, magic + each version byte, gzip header, declared-huge-length bodies). Each input is loaded into the home engine in a child process with a tracking allocator: no panic/abort, no single allocation above 64 MiB + 64*len; on Err the engine's serialized state, tags and probe answers are unchanged; on Ok a battery of queries + serialize_raw runs, the caller's tags are kept, and re-loading the home bytes restores the initial state. Non-trivial input = corrupted input that decodes successfully or is rejected only by the msgpack layer (distinct by content hash).".into();
+    ctx.rule = "for each generated pair (home engine with tags, victim engine of 0-12 rules of every network/cosmetic shape, half of them with 1-2 rules whose pattern begins or ends with a multi-byte character, debug/optimise flags): the victim's valid buffer b is corrupted by EVERY prefix, EVERY single-bit flip, byte substitutions at every offset (28 msgpack-marker values; thorough: all 255 on a quarter of the buffers), 600/4000 seeded multi-byte corruptions/insertions/deletions/splices/arbitrary strings, 4 inputs of 1 MiB and more that must be rejected (tried first, while the home engine still holds state the format does not carry: a scriptlet rule from a list with permissions), and every header variant (empty, 1-4 magic bytes, magic + each version byte, gzip header, declared-huge-length bodies). Each input is loaded into the home engine in a child process with a tracking allocator: no panic/abort, no single allocation above 64 MiB + 64*len; on Err the engine's serialized state, tags and probe answers are unchanged; on Ok a battery of queries + serialize_raw runs, the caller's tags are kept, and re-loading the home bytes restores the initial state. Non-trivial input = corrupted input that decodes successfully or is rejected only by the msgpack layer (distinct by content hash).".into();
     ctx.assumptions = vec![
         "shards run in child processes; a dead child is re-run on its last announced buffer with per-input tracing to find the culprit".into(),
         "allocation requests >= 1 GiB are refused by the harness allocator (the process then aborts, which is reported)".into(),
